@@ -570,6 +570,14 @@ class FnText:
     def closure_let(self, n, stmt, origin):
         """T10: `|pat| body` -> `|x| { let pat = x; body }` (the let text is given by the contract)"""
         b1, b2 = self.find_closure(n, 'closurelet')
+        ren = getattr(self, 'closure_param_renames', {}).get(str(n))
+        if ren:   # T16: the header of this closure followed a parameter rename; so does the let text
+            out, pos = [], 0
+            for t in tokenize(stmt):
+                out.append(stmt[pos:t.start]); pos = t.end
+                out.append(ren.get(t.text, t.text) if t.kind == 'ident' else t.text)
+            out.append(stmt[pos:])
+            stmt = ''.join(out)
         bs, be, is_block = self.closure_body(b2)
         if is_block:
             pos = self.stok(bs).end
@@ -618,9 +626,47 @@ class FnText:
         # parameter names of the original must reappear in the new header (`_` may become `_p`)
         orig_params = [self.stok(k).text for k in range(b1 + 1, b2) if self.stok(k).kind == 'ident']
         hdr_idents = {t.text for t in tokenize(header + ' ' + extra) if t.kind == 'ident'}
-        for p in orig_params:
-            if p not in hdr_idents and p not in ('_', 'mut', 'ref'):
-                raise Unsupported(f'{self.name}: @closure {n}: parameter {p} missing in new header')
+        missing = [p for p in orig_params if p not in hdr_idents and p not in ('_', 'mut', 'ref')]
+        if missing:
+            # T16: the source closure's parameters were RENAMED (same number of plain-identifier parameters): the typed
+            # header of the template follows the renaming token by token (header, its requires/ensures and a @closurelet
+            # text), so that a parameter rename stays decidable; refused when a new name already occurs in the header
+            # (capture) or when the parameter lists are not plain identifiers of the same length
+            def plain_params(toks):
+                names, depth, expect = [], 0, True
+                for t in toks:
+                    if t.kind == 'punct' and t.text in '([{<':
+                        depth += 1
+                    elif t.kind == 'punct' and t.text in ')]}>':
+                        depth -= 1
+                    elif depth == 0 and t.kind == 'punct' and t.text == ',':
+                        expect = True
+                    elif depth == 0 and expect and t.kind == 'ident' and t.text not in ('mut', 'ref'):
+                        names.append(t.text); expect = False
+                    elif depth == 0 and expect and t.kind == 'punct' and t.text not in ('&',):
+                        return None     # a pattern, not a plain identifier
+                return names
+            src_toks = [self.stok(k) for k in range(b1 + 1, b2)]
+            htoks = [t for t in tokenize(header) if t.kind not in ('ws', 'lcomment', 'bcomment')]
+            bars = [i for i, t in enumerate(htoks) if t.kind == 'punct' and t.text == '|']
+            src_names = plain_params(src_toks)
+            hdr_names = plain_params(htoks[bars[0] + 1:bars[1]]) if len(bars) >= 2 else None
+            ok = bool(src_names) and hdr_names is not None and len(src_names) == len(hdr_names) \
+                and not any(nm in hdr_idents for nm in src_names if nm not in hdr_names)
+            if not ok:
+                raise Unsupported(f'{self.name}: @closure {n}: parameter {missing[0]} missing in new header')
+            ren = {a: b for a, b in zip(hdr_names, src_names) if a != b}
+
+            def apply(text):
+                out, pos = [], 0
+                for t in tokenize(text):
+                    out.append(text[pos:t.start]); pos = t.end
+                    out.append(ren.get(t.text, t.text) if t.kind == 'ident' else t.text)
+                out.append(text[pos:])
+                return ''.join(out)
+            header = apply(header)
+            self.closure_param_renames = getattr(self, 'closure_param_renames', {})
+            self.closure_param_renames[str(n)] = ren
         bs, be, is_block = self.closure_body(b2)
         self.edits.append((self.stok(b1).start, self.stok(b2).end, header.strip() + ' ', origin))
         if not is_block:
